@@ -96,6 +96,7 @@ func (s *CDX) Serialize(bom *sbom.Document, _ *native.SerializeOptions, _ interf
 
 	doc.Metadata.Component = s.nodeToComponent(rootNode)
 	state.addedDict[rootNode.Id] = struct{}{}
+	state.rootID = rootNode.Id
 
 	if err := s.componentsMaps(ctx, bom); err != nil {
 		return nil, err
@@ -230,10 +231,6 @@ func (s *CDX) dependencies(ctx context.Context, bom *sbom.Document) ([]cdx.Depen
 
 	for _, e := range bom.NodeList.Edges {
 		e := e
-		if _, ok := state.addedDict[e.From]; ok {
-			continue
-		}
-
 		if _, ok := state.componentsDict[e.From]; !ok {
 			logrus.Info("serialize")
 			return nil, fmt.Errorf("unable to find component %s", e.From)
@@ -246,15 +243,22 @@ func (s *CDX) dependencies(ctx context.Context, bom *sbom.Document) ([]cdx.Depen
 		case sbom.Edge_contains:
 			// Make sure we have the target component
 			for _, targetID := range e.To {
-				state.addedDict[targetID] = struct{}{}
 				if _, ok := state.componentsDict[targetID]; !ok {
 					return nil, fmt.Errorf("unable to locate node %s", targetID)
 				}
 
-				if state.componentsDict[e.From].Components == nil {
-					state.componentsDict[e.From].Components = &[]cdx.Component{}
+				// Components contained in the root node stay at the top level
+				// of the document. Other components are nested under their
+				// first container once all edges have been read, so that the
+				// result does not depend on the order of the edges.
+				if e.From == state.rootID {
+					continue
 				}
-				*state.componentsDict[e.From].Components = append(*state.componentsDict[e.From].Components, *state.componentsDict[targetID])
+				if _, ok := state.addedDict[targetID]; ok {
+					continue
+				}
+				state.addedDict[targetID] = struct{}{}
+				state.children[e.From] = append(state.children[e.From], targetID)
 			}
 
 		case sbom.Edge_dependsOn:
@@ -271,7 +275,6 @@ func (s *CDX) dependencies(ctx context.Context, bom *sbom.Document) ([]cdx.Depen
 					return nil, fmt.Errorf("unable to locate node %s", targetID)
 				}
 
-				state.addedDict[targetID] = struct{}{}
 				depListCheck[targetID] = struct{}{}
 				targetStrings = append(targetStrings, targetID)
 			}
@@ -287,6 +290,8 @@ func (s *CDX) dependencies(ctx context.Context, bom *sbom.Document) ([]cdx.Depen
 			)
 		}
 	}
+
+	state.nestComponents()
 
 	return dependencies, nil
 }
@@ -450,12 +455,38 @@ func (s *CDX) Render(doc interface{}, wr io.Writer, o *native.RenderOptions, _ i
 type serializerCDXState struct {
 	addedDict      map[string]struct{}
 	componentsDict map[string]*cdx.Component
+	rootID         string
+	children       map[string][]string
 }
 
 func newSerializerCDXState() *serializerCDXState {
 	return &serializerCDXState{
 		addedDict:      map[string]struct{}{},
 		componentsDict: map[string]*cdx.Component{},
+		children:       map[string][]string{},
+	}
+}
+
+// nestComponents copies every contained component into its container,
+// innermost components first, as components are nested by value.
+func (s *serializerCDXState) nestComponents() {
+	done := map[string]struct{}{}
+	var nest func(id string)
+	nest = func(id string) {
+		if _, ok := done[id]; ok {
+			return
+		}
+		done[id] = struct{}{}
+		for _, childID := range s.children[id] {
+			nest(childID)
+			if s.componentsDict[id].Components == nil {
+				s.componentsDict[id].Components = &[]cdx.Component{}
+			}
+			*s.componentsDict[id].Components = append(*s.componentsDict[id].Components, *s.componentsDict[childID])
+		}
+	}
+	for id := range s.children {
+		nest(id)
 	}
 }
 
